@@ -58,7 +58,7 @@ def resolve_helper(prog, f, call, skip=()):
             callee = r[1]
     elif isinstance(fn, ast.Attribute) and isinstance(fn.value, ast.Name) and fn.value.id == 'self' and f.cls is not None:
         m = prog.resolve_method(f.cls, fn.attr)
-        if m is not None and m.mod is f.mod:
+        if m is not None and (m.mod is f.mod or same_globals(prog, m, f.mod)):
             callee, is_method = m, True
     if callee is None or callee is f or callee.name in skip or not callee.name.startswith('_') or callee.name.startswith('__'):
         return None, False
@@ -66,9 +66,51 @@ def resolve_helper(prog, f, call, skip=()):
     if any(d != 'staticmethod' for d in decs):
         return None, False
     a = callee.node.args
-    if a.vararg or a.kwarg:
+    if a.kwarg:
+        return None, False
+    if a.vararg and not star_forwarded_only(callee.node, a.vararg.arg):
         return None, False
     return callee, is_method
+
+
+def same_globals(prog, m, mod):
+    """every global name the method m reads means the same thing in module `mod` (a base-class helper inherited across modules)"""
+    import builtins
+    local = set(m.params) | {n.id for n in ast.walk(m.node) if isinstance(n, ast.Name) and isinstance(n.ctx, (ast.Store, ast.Del))}
+    for n in ast.walk(m.node):
+        if isinstance(n, ast.Name) and isinstance(n.ctx, ast.Load) and n.id not in local and not hasattr(builtins, n.id):
+            a = prog.resolve(m.mod, n)
+            b = prog.resolve(mod, n)
+            if a is None or b is None or a[0] != b[0]:
+                return False
+            if a[0] in ('ext', 'mod') and a[1] != b[1] if a[0] == 'ext' else (a[0] == 'mod' and a[1] is not b[1]):
+                return False
+            if a[0] in ('func', 'class') and a[1] is not b[1]:
+                return False
+    return True
+
+
+def star_forwarded_only(fnode, name):
+    """the *args parameter is used only as `*args` in calls (forwarded as it is)"""
+    starred = {id(n.value) for c in ast.walk(fnode) if isinstance(c, ast.Call) for n in c.args if isinstance(n, ast.Starred) and isinstance(n.value, ast.Name) and n.value.id == name}
+    uses = [n for n in ast.walk(fnode) if isinstance(n, ast.Name) and n.id == name]
+    return bool(uses) and all(id(n) in starred for n in uses)
+
+
+class _ExpandStar(ast.NodeTransformer):
+    def __init__(self, name, k):
+        self.name, self.k = name, k
+
+    def visit_Call(self, n):
+        self.generic_visit(n)
+        args = []
+        for a in n.args:
+            if isinstance(a, ast.Starred) and isinstance(a.value, ast.Name) and a.value.id == self.name:
+                args.extend(ast.Name(id=f'__va{i}_{self.name}', ctx=ast.Load()) for i in range(self.k))
+            else:
+                args.append(a)
+        n.args = args
+        return n
 
 
 def bind(callee, call, is_method):
@@ -80,13 +122,20 @@ def bind(callee, call, is_method):
     defaults = dict(zip(params[len(params) - len(a.defaults):], a.defaults)) if a.defaults else {}
     out = {}
     for i, arg in enumerate(call.args):
-        if isinstance(arg, ast.Starred) or i >= len(params):
+        if isinstance(arg, ast.Starred):
             return None
+        if i >= len(params):
+            if a.vararg is None:
+                return None
+            out[f'__va{i - len(params)}_{a.vararg.arg}'] = arg      # star-forwarded extras, see _ExpandStar
+            continue
         out[params[i]] = arg
     for k in call.keywords:
         if k.arg is None or k.arg not in params or k.arg in out:
             return None
         out[k.arg] = k.value
+    if a.vararg is not None:
+        out['__nva__'] = ast.Constant(value=sum(1 for k_ in out if k_.startswith('__va')))
     for p in params:
         if p not in out:
             if p in defaults:
@@ -141,7 +190,7 @@ class Inliner:
         if len(body) != 1 or not isinstance(body[0], ast.Return) or body[0].value is None:
             return None
         b = bind(callee, call, is_method)
-        if b is None:
+        if b is None or '__nva__' in b:
             return None
         ret = body[0].value
         uses = {}
@@ -211,6 +260,10 @@ class Inliner:
         b = bind(callee, call, is_method)
         if b is None:
             return None
+        if '__nva__' in b:
+            k_ = b.pop('__nva__').value
+            body = [_ExpandStar(callee.node.args.vararg.arg, k_).visit(copy.deepcopy(s_)) for s_ in body]
+            last_ret = body[-1] if isinstance(body[-1], ast.Return) else None
         core = body[:-1] if last_ret is not None else body
         rebound = assigned_names(core)
         self.counter += 1
